@@ -209,16 +209,23 @@ def _tables_and_domains(res, index):
     base = domains.get("Family323Plus", {})
     cexpr = None
     call = None
+    assigns = {n.targets[0].id: n.value for n in ast.walk(gs.node)
+               if isinstance(n, ast.Assign) and len(n.targets) == 1 and isinstance(n.targets[0], ast.Name)}
     for n in ast.walk(gs.node):
-        if isinstance(n, ast.Assign) and isinstance(n.targets[0], ast.Name) and n.targets[0].id == "c":
-            cexpr = n.value
         if isinstance(n, ast.Call) and ast.unparse(n.func).endswith("get_shape"):
             call = n
-    if tg and base.get("c") and cexpr is not None and call is not None and len(call.args) == 2:
-        ends = sorted(_num(cexpr, {"truncation": t}) for t in (tg[0], tg[1]))
+    tparam = gs.params[1] if len(gs.params) > 1 else "truncation"
+    if call is not None and len(call.args) == 2:
+        # the second argument (the c of the base family), looked through one local temporary
+        cexpr = call.args[1]
+        if isinstance(cexpr, ast.Name) and cexpr.id in assigns:
+            cexpr = assigns[cexpr.id]
+    if tg and base.get("c") and cexpr is not None and call is not None and len(call.args) == 2 \
+            and all(_num(cexpr, {tparam: t}) is not None for t in (tg[0], tg[1])):
+        ends = sorted(_num(cexpr, {tparam: t}) for t in (tg[0], tg[1]))
         a_val = _num(call.args[0], {})
         ok = abs(ends[0] - base["c"][0]) < 1e-12 and abs(ends[1] - base["c"][1]) < 1e-12 and a_val is not None \
-            and base["a"][0] <= a_val <= base["a"][1] and ast.unparse(call.args[1]) == "c"
+            and base["a"][0] <= a_val <= base["a"][1]
         if ok:
             res.ok("DOM-2", "TruncatedTetrahedronFamily", sample={"image_of_[0,1]": ends, "a": a_val})
         else:
@@ -266,59 +273,76 @@ def _uniform(res, index):
             return Poly.const(0)
         return z.sym
 
-    # prism
+    def area_of(ngons):
+        a_ = ngons[0].get("area") if ngons else None
+        return a_.sym if a_ is not None else None
+
+    def apex_rows(env):
+        """z coordinates of literal point displays [[x, y, z], ...] bound to any local (the apex / apexes)."""
+        out = []
+        for v in env.values():
+            if v is not None and v.items and all(it is not None and it.items is not None and len(it.items) == 3 for it in v.items):
+                zs = [it.items[2].sym for it in v.items]
+                if all(z is not None for z in zs):
+                    out.append(zs)
+        return out
+
+    # prism (local names carry no meaning: the height is the distance of the two n-gon planes)
     c, fn, env, ngons, r = analyse("UniformPrismFamily")
     where = f"{fn.file}:{fn.lineno}"
-    h, area = sym(env, "h"), sym(env, "area")
-    if h is None or area is None or len(ngons) != 2:
+    area = area_of(ngons)
+    if area is None or len(ngons) != 2:
         res.not_in_fragment.append("UV-1 prism")
     else:
-        ok = (area * h == one) and all(a.get("area") is not None and a["area"].sym == area for a in ngons) \
-            and (zsym(ngons[1]) - zsym(ngons[0]) == h or zsym(ngons[0]) - zsym(ngons[1]) == h) and (zsym(ngons[0]) + zsym(ngons[1])).is_zero()
+        h = zsym(ngons[1]) - zsym(ngons[0])
+        ok = (area * h == one or area * (-h) == one) and all(a.get("area") is not None and a["area"].sym == area for a in ngons) \
+            and (zsym(ngons[0]) + zsym(ngons[1])).is_zero()
         _verdict(res, ok, "UV-1", "UniformPrismFamily", where, "area*h = V with two equal n-gons at -h/2 and +h/2",
                  f"area*h = {area * h}, z = {zsym(ngons[0])}, {zsym(ngons[1])}")
     # pyramid
     c, fn, env, ngons, r = analyse("UniformPyramidFamily")
     where = f"{fn.file}:{fn.lineno}"
-    h, area = sym(env, "h"), sym(env, "area")
-    apex = env.get("apex")
-    az = apex.items[0].items[2].sym if (apex is not None and apex.items and apex.items[0].items) else None
-    if h is None or area is None or len(ngons) != 1 or az is None:
+    area = area_of(ngons)
+    apx = [zs for zs in apex_rows(env) if len(zs) == 1]
+    if area is None or len(ngons) != 1 or len(apx) != 1:
         res.not_in_fragment.append("UV-1 pyramid")
     else:
+        az = apx[0][0]
+        h = az - zsym(ngons[0])
         third = Poly.const(Fraction(1, 3))
-        ok = (area * h * third == one) and (az - zsym(ngons[0]) == h) and (zsym(ngons[0]) + h * Poly.const(Fraction(1, 4))).is_zero() \
-            and ngons[0]["area"].sym == area and len(apex.items) == 1
+        ok = (area * h * third == one) and (zsym(ngons[0]) + h * Poly.const(Fraction(1, 4))).is_zero()
         _verdict(res, ok, "UV-1", "UniformPyramidFamily", where, "area*h/3 = V, base at -h/4, one apex at 3h/4 (centroid at the origin)",
                  f"area*h/3 = {area * h * third}, base z = {zsym(ngons[0])}, apex z = {az}")
     # dipyramid
     c, fn, env, ngons, r = analyse("UniformDipyramidFamily")
     where = f"{fn.file}:{fn.lineno}"
-    h, area = sym(env, "h"), sym(env, "area")
-    apx = env.get("apexes")
-    if h is None or area is None or len(ngons) != 1 or apx is None or not apx.items or len(apx.items) != 2:
+    area = area_of(ngons)
+    apx = [zs for zs in apex_rows(env) if len(zs) == 2]
+    if area is None or len(ngons) != 1 or len(apx) != 1:
         res.not_in_fragment.append("UV-1 dipyramid")
     else:
-        zs = [it.items[2].sym for it in apx.items]
-        ok = (area * h * Poly.const(Fraction(2, 3)) == one) and zsym(ngons[0]).is_zero() and set(map(repr, zs)) == {repr(h), repr(-h)} \
-            and ngons[0]["area"].sym == area
+        zs = apx[0]
+        two3 = Poly.const(Fraction(2, 3))
+        ok = (zs[0] + zs[1]).is_zero() and (area * zs[0] * two3 == one or area * zs[1] * two3 == one) and zsym(ngons[0]).is_zero()
         _verdict(res, ok, "UV-1", "UniformDipyramidFamily", where, "2*area*h/3 = V, base at z = 0, apexes at +-h",
-                 f"2*area*h/3 = {area * h * Poly.const(Fraction(2, 3))}, apex z = {zs}")
+                 f"2*area*h/3 = {area * zs[0] * two3}, apex z = {zs}")
     # antiprism
     c, fn, env, ngons, r = analyse("UniformAntiprismFamily")
     where = f"{fn.file}:{fn.lineno}"
-    h, area, s_ = sym(env, "h"), sym(env, "area"), sym(env, "s")
-    if h is None or area is None or s_ is None or len(ngons) != 2:
+    area = area_of(ngons)
+    if area is None or len(ngons) != 2:
         res.not_in_fragment.append("UV-1 antiprism")
     else:
         tan_pn = Poly.atom(f"tan<{(Poly.atom('pi') * n_atom.pow(-1))!r}>")
-        want_area = n_atom * Poly.const(Fraction(1, 4)) * tan_pn.pow(-1) * s_ * s_
+        coeff = n_atom * Poly.const(Fraction(1, 4)) * tan_pn.pow(-1)
+        # some local (the edge length) satisfies area = n/4 cot(pi/n) s^2
+        edge = [v.sym for v in env.values() if v is not None and v.sym is not None and not v.has_const() and coeff * v.sym * v.sym == area]
         angles = sorted(repr(a["angle"].sym) if a.get("angle") is not None and a["angle"].sym is not None else "0" for a in ngons)
         twist = {repr(Poly.atom("pi") * n_atom.pow(-1)), "0"} == set(angles)
-        ok = (area == want_area) and (zsym(ngons[0]) + zsym(ngons[1])).is_zero() and (zsym(ngons[1]) - zsym(ngons[0]) == h or zsym(ngons[0]) - zsym(ngons[1]) == h) \
+        ok = bool(edge) and (zsym(ngons[0]) + zsym(ngons[1])).is_zero() and not (zsym(ngons[1]) - zsym(ngons[0])).is_zero() \
             and twist and all(a["area"].sym == area for a in ngons)
         _verdict(res, ok, "UV-1", "UniformAntiprismFamily", where, "n-gon area n/4 cot(pi/n) s^2, n-gons at -+h/2, twisted by pi/n",
-                 f"area = {area} vs {want_area}; twist {angles}")
+                 f"area = {area}; edge candidates {len(edge)}; twist {angles}")
     # regular n-gon
     c, fn, env, ngons, r = analyse("RegularNGonFamily")
     where = f"{fn.file}:{fn.lineno}"
@@ -406,13 +430,14 @@ def _doi(res, index):
     if fac is None:
         raise AnalysisError("anchor vanished: _doi_shape_collection_factory")
     last_if = [s for s in fac.node.body if isinstance(s, ast.If)]
+    rets = [s for s in fac.node.body if isinstance(s, ast.Return)]
+    rname = rets[-1].value.id if rets and isinstance(rets[-1].value, ast.Name) else None
     ok = False
     for s in last_if:
-        if ast.unparse(s.test).replace(" ", "") in ("notfamilies", "len(families)==0") and any(
+        if rname and ast.unparse(s.test).replace(" ", "") in (f"not{rname}", f"len({rname})==0", f"{rname}==[]") and any(
                 isinstance(x, ast.Raise) and "KeyError" in ast.unparse(x) for x in ast.walk(s)):
             ok = True
-    rets = [s for s in fac.node.body if isinstance(s, ast.Return)]
-    ok = ok and rets and ast.unparse(rets[-1].value) == "families"
+    ok = ok and rname is not None
     _verdict(res, ok, "DOI-1", "factory:unknown-doi", f"{fac.file}:{fac.lineno}", "`if not families: raise KeyError` before `return families`", "pattern not found")
     kd = mod.classes.get("_KeyedDefaultDict")
     miss = kd.methods.get("__missing__") if kd else None
